@@ -13,7 +13,7 @@ from simkit.core import EventLog, Outcome, Violation, stream_rng, stable_hash, o
 
 ID = "C20"
 LEVEL = "exploration"
-TIERS = {"quick": {"runs": 12000, "wall": 120}, "thorough": {"runs": 600000, "wall": 1500}}
+TIERS = {"quick": {"runs": 40000, "wall": 120}, "thorough": {"runs": 600000, "wall": 1500}}
 HASHSEED_RUNS = {"quick": 600, "thorough": 6000}
 RULE = ("world = seeded tag collection text (0..8 packages with distinct names of length "
         "1..8, tags facet::tag or single characters, lines with several packages, packages "
